@@ -5,7 +5,7 @@
    other, and a predicate listing x lists at least the predicates of y. *)
 From Coq Require Import List ZArith Bool Permutation.
 From MV Require Import Store.AMap Store.SetSpec Store.Generic Store.Simple Store.Indexed Store.MultiIndexed Store.MultiIndexedArray
-  Store.Wrappers Store.GenericProofs Store.SimpleProofs Store.ArrayProofs Store.IndexedProofs Store.MultiProofs Store.WrappersProofs Store.ComposeProofs Store.StoreTheorems.
+  Store.Wrappers Store.GenericProofs Store.SimpleProofs Store.ArrayProofs Store.IndexedProofs Store.MultiProofs Store.WrappersProofs Store.ComposeProofs Store.ListPredsProofs Store.StoreTheorems.
 Import ListNotations.
 Open Scope Z_scope.
 
@@ -33,16 +33,16 @@ Example shard_ok_satisfiable : forall hash, shard_ok (simple_impl hash) s_elems 
 Proof. exact simple_shard_ok. Qed.
 
 (* SimpleInMemoryStore, for ALL hash functions and ALL histories in which no two
-   distinct atoms have equal hashes. Full statement intended: the same with
-   out_equiv in place of out_covers, i.e. ListPredicates lists exactly the set's
-   predicates (the simple store deletes emptied shards); the proved part leaves
-   that clause as "lists at least". *)
-Theorem simple_refines_set_partial :
+   distinct atoms have equal hashes: every output equals the set machine's
+   (out_equiv: booleans and counts equal, query results and predicate listings
+   permutations of each other - ListPredicates lists exactly the set's
+   predicates, because the simple store deletes emptied shards). *)
+Theorem simple_refines_set :
   forall (hash : atom -> Z) (h : list op),
     (forall a b, In a (history_atoms h) -> In b (history_atoms h) -> hash a = hash b -> a = b) ->
-    Forall2 out_covers (run (g_step (simple_impl hash)) g_empty h) (run s_step [] h).
-Proof. exact simple_refines. Qed.
-Print Assumptions simple_refines_set_partial.
+    Forall2 out_equiv (run (g_step (simple_impl hash)) g_empty h) (run s_step [] h).
+Proof. exact simple_refines_exactly. Qed.
+Print Assumptions simple_refines_set.
 Example collision_free_satisfiable :
   let hash := fun a : atom => fst a * 1000 + fold_right Z.add 0 (snd a) in
   let h := [Add (0, [1]); Add (0, [2]); Remove (0, [1]); Query (0, [None]); Merge [(1, [1; 2]); (0, [2])]] in
